@@ -1,4 +1,5 @@
 From PV.Model Require Import Machine Mapping Views Pattern Exec ScanView.
+From PV.Spec Require Import PatSyntax PatSem.
 Require Import ExtrOcamlBasic.
 Extraction Language OCaml.
-Extraction "../ocaml/gen/pattern_model.ml" parse save_len view_exec.
+Extraction "../ocaml/gen/pattern_model.ml" parse save_len view_exec show compile den_top apply_log scan_of_view.
